@@ -32,4 +32,10 @@ Bal(ts, p, stack) ==
     ELSE IF ts[p] \in {")", "]", "}"} THEN stack # <<>> /\ Head(stack) = Partner(ts[p]) /\ Bal(ts, p + 1, Tail(stack))
     ELSE Bal(ts, p + 1, stack)
 Balanced(ts) == Bal(ts, 1, <<>>)
+\* juxtaposition: in none of TypeScript, Kotlin, Swift and Scala can a string literal stand directly next to another literal or an
+\* identifier (`""created-at""`, `"a" b`, `x "y"`); it is how a string that was quoted twice, or closed too early, shows in the
+\* token classes of a body that is otherwise only checked for balance. (Go is exempt: a struct tag follows a type name.)
+AdjOk(ts) == \A i \in 1..(Len(ts) - 1) :
+    /\ ~(ts[i] = "str" /\ ts[i + 1] \in {"str", "id", "num"})
+    /\ ~(ts[i] \in {"id", "num"} /\ ts[i + 1] = "str")
 =============================================================================
